@@ -3,7 +3,7 @@ from _helpers import rapid, direct, fuzz
 PROPS = {
     "C06": dict(pkg="walletf", level="exploration", stages=[
         direct("claim-routing", "TestC06ClaimRouting"),
-        rapid("rapid", "TestC06", dict(shards=16, checks=500, timeout=900), dict(shards=16, checks=4000, timeout=6000)),
+        rapid("rapid", "TestC06", dict(shards=16, checks=350, timeout=900), dict(shards=16, checks=3000, timeout=6000)),
     ]),
     "C07": dict(pkg="walletf", level="exploration", stages=[
         rapid("rapid", "TestC07", dict(shards=16, checks=1000, timeout=900), dict(shards=16, checks=12000, timeout=6000)),
